@@ -286,8 +286,21 @@ def _replay(kind, name, meth, m, model, what, vnext, vouts, topname, text, sh, a
             if isinstance(val, int) and not isinstance(val, bool) and attr not in L.INFRA:
                 if ('f_' + attr) in env: setattr(obj, attr, int(env['f_' + attr]))
                 else: env['f_' + attr] = val
+        # memory content from the model (array words), for the Python object and for the evaluation of the Verilog terms
+        arrays = {}
+        for k_, words in model.items():
+            if k_.endswith('#words') and k_.startswith('a_'):
+                attr = k_[2:-6]
+                if isinstance(getattr(obj, attr, None), list):
+                    setattr(obj, attr, [int(x) for x in words][:len(getattr(obj, attr))]); arrays[k_[:-6]] = list(getattr(obj, attr))
+        if arrays: info['memory_before'] = {k_[2:]: v_ for k_, v_ in arrays.items()}
         _q(getattr(obj, m2))
-        if what[0] == 'f':
+        if what[0] == 'a':
+            # one word of a memory after the edge: python list element vs the Verilog word
+            vmem = [k_ for k_ in vnext if k_.startswith(topname + '.') and k_.endswith('#%d' % what[2])]
+            got_py = getattr(obj, what[1])[what[2]]; vt = vnext[vmem[0]]
+            what = ('a', '%s[%d]' % (what[1], what[2]))
+        elif what[0] == 'f':
             got_py = getattr(obj, what[1]); vt = vnext['%s.%s' % (topname, what[1])]
         else:
             pw = None
@@ -301,8 +314,8 @@ def _replay(kind, name, meth, m, model, what, vnext, vouts, topname, text, sh, a
                 got_py = pw.value; vt = vouts[what[1]]
         py4hw.Wire.prepared = []
         fv = ir.free_vars(vt)
-        full = {k: env.get(k, 0) for k in fv}
-        got_v = ir.evaluate(vt, full)
+        full = {k: env.get(k, 0) for k, t_ in fv.items() if t_.op != 'avar'}
+        got_v = ir.evaluate(vt, full, arrays) if arrays else ir.evaluate(vt, full)
         info.update(python=got_py, verilog=got_v, reproduced=(got_py != got_v), expected={what[1] + ' (Python method)': got_py}, got={what[1] + ' (Verilog)': got_v}, verilog_text=text[:2500])
     except Exception as e:
         info.update(reproduced=False, note='replay failed: %r' % (e,))
